@@ -76,7 +76,7 @@ func runLinz(o Opts) *Result {
 			_ = b.Write(ctx, []byte(fmt.Sprintf("filler-%d", i)), 1000+i)
 		}
 		var daDone int64 // response stamp of the first completed DeleteAll (0 = none yet)
-		res.Evaluations++
+		res.count("scenarios")
 		res.count("backend:" + kind)
 		var ctr int64
 		var mu sync.Mutex
@@ -391,6 +391,7 @@ func runLinz(o Opts) *Result {
 				continue
 			}
 			res.count("slot-histories")
+			res.Evaluations++ // the unit that is judged is one slot history
 			res.countN("events", len(evs))
 			hist := strings.Join(evs, " ")
 			r := d.Ask("lz check - " + hist)
